@@ -92,7 +92,7 @@ CHECKS["C15"] = dict(
    ref="C15")
 CHECKS["C16"] = dict(
    technique="Go race detector over repeated cold-start concurrent workloads in fresh processes + digest comparison against a sequential baseline + state-based goroutine-leak verdict + cache-invariant hook (separate sink-on pass)",
-   text="Exploration of schedules: per run 24 (quick) / 300 (thorough) fresh -race processes over the grid goroutines {2..64} x GOMAXPROCS {1..16}, each with a cold-start focus (RS-degree climb, Aztec 8/10/12-bit, PDF417, big DataMatrix/QR, 1D), plus 48 / 400 'micro' processes of cheap cold starts per 1D/small package and free-running streams of large Aztec symbols; the concurrent calls are the first library calls in each process (pre-barrier objects avoid the focus package); shared barcodes, barcodes on which nothing was called before the barrier, shared scaled 2D barcodes (factors 2, 8, 9, 13, rows read in disjoint bands) and shared RS encoders are read/used by all goroutines; rejected requests of every family (early and late refusal paths) run concurrently and their errors are re-read; per family one 'hammer' process calls the encoder in tight loops from all goroutines, refusals interleaved, every result decoded inline; any race report, digest difference from the sequential baseline, panic, deadlock (all goroutines blocked, confirmed by dump) or blocked library goroutine after quiescence is a violation.",
+   text="Exploration of schedules: per run 24 (quick) / 300 (thorough) general fresh -race processes over the grid goroutines {2..64} x GOMAXPROCS {1..16}, each with a cold-start focus (RS-degree climb, Aztec 8/10/12-bit, PDF417, big DataMatrix/QR, 1D), plus 48 / 400 'micro' processes of cheap cold starts per 1D/small package and free-running streams of large Aztec symbols; the concurrent calls are the first library calls in each process (pre-barrier objects avoid the focus package); shared barcodes, barcodes on which nothing was called before the barrier, shared scaled 2D barcodes (factors 2, 8, 9, 13, rows read in disjoint bands) and shared RS encoders are read/used by all goroutines; rejected requests of every family (early and late refusal paths) run concurrently and their errors are re-read; per family one 'hammer' process calls the encoder in tight loops from all goroutines, refusals interleaved, every result decoded inline; 'twin' cold starts (40 classes: every PDF417 level, DataMatrix/QR/Aztec size classes and multi-round processes over all sizes/levels/versions/layers, every 1D option mix; 72 to 576 fresh processes per 1D class) release all goroutines through a spin barrier into the SAME first request, so lazily built per-size/per-level/per-option state is first-used by all at once; any race report, digest difference from the sequential baseline, panic, deadlock (all goroutines blocked, confirmed by dump) or blocked library goroutine after quiescence is a violation.",
    note="the race detector sees only executed code; schedules are sampled; monitor adds no synchronisation in race-deciding runs",
    ref="C16")
 PENDING = {}
